@@ -82,7 +82,7 @@ pub struct Analysis {
 }
 
 #[derive(Clone, Debug)]
-enum SessionKind { TopDown(Vec<Tid>), BottomUp { report: Vec<usize>, complete: bool, then_require: Vec<Tid> } }
+enum SessionKind { TopDown(Vec<Tid>), BottomUp { report: Vec<usize>, complete: bool, then_require: Vec<Tid>, pre_require: Vec<Tid>, shape: u8 } }
 
 struct SessionResult {
   start: usize,
@@ -252,13 +252,14 @@ impl<'a> Runner<'a> {
           self.session(i, SessionKind::TopDown(roots), &fault, false);
           self.last_td = None;
         }
-        Step::BottomUp { report, then_require } => {
+        Step::BottomUp { report, then_require, pre_require, shape } => {
           let (rep, complete) = match report {
             None => (self.changed.iter().copied().collect::<Vec<_>>(), !self.abort_dirty),
             Some(r) => { let r: Vec<usize> = r.iter().copied().filter(|x| *x < self.shadow.len()).collect(); let complete = !self.abort_dirty && self.changed.iter().all(|c| r.contains(c)); (r, complete) }
           };
           let then_require: Vec<Tid> = then_require.iter().copied().filter(|t| *t < self.prog.tasks.len()).collect();
-          self.session(i, SessionKind::BottomUp { report: rep, complete, then_require }, &fault, false);
+          let pre_require: Vec<Tid> = pre_require.iter().copied().filter(|t| *t < self.prog.tasks.len()).collect();
+          self.session(i, SessionKind::BottomUp { report: rep, complete, then_require, pre_require, shape: *shape }, &fault, false);
           self.last_td = None;
         }
       }
@@ -308,15 +309,37 @@ impl<'a> Runner<'a> {
             roots_out.push((*t, out));
           }
         }
-        SessionKind::BottomUp { report, then_require, .. } => {
-          log(Ev::BuStart);
-          {
-            let mut bu = session.create_bottom_up_build();
-            for r in report.iter() { schedule(&mut bu, prog.resources[*r]); }
-            log(Ev::BuScheduled);
-            bu.update_affected_tasks();
+        SessionKind::BottomUp { report, then_require, pre_require, shape, .. } => {
+          for t in pre_require.iter() {
+            log(Ev::RootStart { t: *t });
+            let out = require_root(&mut session, prog.tasks[*t].key);
+            log(Ev::RootEnd { t: *t, out });
+            roots_out.push((*t, out));
           }
-          log(Ev::BuEnd);
+          // Resources that tasks wrote in the top-down phase of this session have changed as well: they are reported.
+          let mut report: Vec<usize> = report.clone();
+          if !pre_require.is_empty() {
+            let written: Vec<usize> = with_sim(|s| s.log[start..].iter().filter_map(|e| if let Ev::ResSet { res, .. } = e { prog.res_index(*res) } else { None }).collect());
+            for r in written { if !report.contains(&r) { report.push(r); } }
+          }
+          if shape & 1 != 0 {
+            log(Ev::BuStart);
+            {
+              let mut bu = session.create_bottom_up_build();
+              for r in report.iter() { schedule(&mut bu, prog.resources[*r]); }
+            }
+            log(Ev::BuDropped);
+          }
+          for _build in 0..(if shape & 2 != 0 { 2 } else { 1 }) {
+            log(Ev::BuStart);
+            {
+              let mut bu = session.create_bottom_up_build();
+              for r in report.iter() { schedule(&mut bu, prog.resources[*r]); }
+              log(Ev::BuScheduled);
+              bu.update_affected_tasks();
+            }
+            log(Ev::BuEnd);
+          }
           for t in then_require.iter() {
             log(Ev::RootStart { t: *t });
             let out = require_root(&mut session, prog.tasks[*t].key);
@@ -353,9 +376,36 @@ impl<'a> Runner<'a> {
     // Roots become known even if the session aborts.
     match &kind {
       SessionKind::TopDown(roots) => { for t in roots { if slice.iter().any(|e| matches!(e, Ev::RootStart { t: x } if x == t)) { self.known.insert(*t); } } }
-      SessionKind::BottomUp { then_require, .. } => { for t in then_require { if slice.iter().any(|e| matches!(e, Ev::RootStart { t: x } if x == t)) { self.known.insert(*t); } } }
+      SessionKind::BottomUp { then_require, pre_require, .. } => { for t in then_require.iter().chain(pre_require.iter()) { if slice.iter().any(|e| matches!(e, Ev::RootStart { t: x } if x == t)) { self.known.insert(*t); } } }
     }
 
+    // Top-down phase of a bottom-up session: a task that it re-executes while a recorded requirer of that task is not
+    // reached is exactly the situation of the recorded mixed-mode finding (the requirer stays stale); the bottom-up
+    // build of such a session is claimed as little as one that follows a partial top-down session.
+    let mut stale_before = stale_before;
+    if let SessionKind::BottomUp { pre_require, .. } = &kind {
+      if !pre_require.is_empty() {
+        let pre_end = slice.iter().position(|e| matches!(e, Ev::BuStart)).unwrap_or(slice.len());
+        let pre = &slice[..pre_end];
+        let pre_reexec: BTreeSet<Tid> = pre.iter().filter_map(|e| if let Ev::ExecStart { t, n, .. } = e { if *n > 1 { Some(*t) } else { None } } else { None }).collect();
+        let pre_exec: BTreeSet<Tid> = pre.iter().filter_map(|e| if let Ev::ExecStart { t, .. } = e { Some(*t) } else { None }).collect();
+        let pre_checked: BTreeSet<u64> = pre.iter().filter_map(|e| if let Ev::OCheck { serial, .. } = e { Some(*serial) } else { None }).collect();
+        let mut risky = false;
+        for b in 0..prog.tasks.len() {
+          if pre_exec.contains(&b) { continue; }
+          let Some(rec) = self.ledger[b].as_ref() else { continue; };
+          for d in rec.deps.iter() {
+            if let (DepKind::Require, Target::Task(u)) = (d.kind, d.target) {
+              if pre_reexec.contains(&u) && !d.serials.iter().any(|s| pre_checked.contains(s)) { risky = true; }
+            }
+          }
+        }
+        if risky {
+          self.stats.hit("probe_in_session_partial_top_down_left_requirer_stale");
+          for t in pre_reexec.iter() { self.td_partial_exec.insert(*t); stale_before.insert(*t); }
+        }
+      }
+    }
     let analysis = self.analyse(step, &kind, &slice, &res, is_repeat, fault_free);
 
     // Abort handling.
@@ -491,7 +541,7 @@ impl<'a> Runner<'a> {
         if *complete { self.changed.clear(); self.all_consistent = true; self.last_bu_complete = true; }
         // Re-executions in the top-down phase after the build (possible under injected checker errors) are a partial
         // top-down session: what they wrote counts as changed.
-        let bu_end = slice.iter().position(|e| matches!(e, Ev::BuEnd)).unwrap_or(slice.len());
+        let bu_end = slice.iter().rposition(|e| matches!(e, Ev::BuEnd)).unwrap_or(slice.len());
         let mut reexec = false;
         for e in slice[bu_end..].iter() {
           if let Ev::ExecStart { n, .. } = e { if *n > 1 { reexec = true; } }
@@ -779,9 +829,9 @@ impl<'a> Runner<'a> {
     let prog = self.prog.clone();
     let ntasks = prog.tasks.len();
     let aborted = res.abort.is_some();
-    let is_bu_session = matches!(kind, SessionKind::BottomUp { .. });
     let probe_after_bu = matches!(kind, SessionKind::TopDown(_)) && self.last_bu_complete && self.changed.is_empty() && fault_free;
     let mut in_bu_phase = false;
+    let mut builds_started = 0u32;
     let mut exec_count = vec![0u32; ntasks];
     let mut executed: BTreeSet<Tid> = BTreeSet::new();
     let mut old: Vec<Option<ExecRec>> = vec![None; ntasks];
@@ -815,7 +865,14 @@ impl<'a> Runner<'a> {
 
     for (i, ev) in slice.iter().enumerate() {
       match ev {
-        Ev::BuStart => { in_bu_phase = true; }
+        Ev::BuStart => {
+          in_bu_phase = true;
+          builds_started += 1;
+          // "At most once" is a statement per build; only under injected checker errors can a task legitimately run
+          // again in the next phase of the same session (a persistent error makes every validation fail).
+          if !fault_free { for c in exec_count.iter_mut() { *c = 0; } }
+        }
+        Ev::BuDropped => { in_bu_phase = false; pending.clear(); order_candidates.clear(); }
         Ev::BuScheduled => {
           // Every recorded read / write dependency on a reported resource must have been checked by now.
           if let SessionKind::BottomUp { report, .. } = kind {
@@ -1106,7 +1163,7 @@ impl<'a> Runner<'a> {
           let Some(idx) = idx else { continue; };
           let incons = verdict != Verdict::Consistent;
           let by_err = matches!(verdict, Verdict::Error(_));
-          if in_bu_phase || (is_bu_session && !slice[..i].iter().any(|e| matches!(e, Ev::BuEnd))) {
+          if in_bu_phase {
             if incons { let e = pending.entry(t).or_insert(false); *e = *e || by_err; }
           } else {
             let nd = self.ledger[t].as_ref().map(|e| e.deps.len()).unwrap_or(0);
@@ -1182,7 +1239,14 @@ impl<'a> Runner<'a> {
               // validates the reader: any session after the reader's own latest execution counts.
               let x_session = self.ledger[x].as_ref().map(|e| e.session).unwrap_or(usize::MAX);
               let intermediate_reexecuted = (0..ntasks).any(|m| m != x && m != *w && self.ledger[m].as_ref().map(|e| e.session > x_session || executed.contains(&m)).unwrap_or(false) && self.prev[m].as_ref().map(|e| !e.req_issued.is_empty()).unwrap_or(false));
-              let sig = if !executed.contains(&x) && !executed.contains(w) && intermediate_reexecuted { "path-dropped-by-reexecuted-intermediate" } else { "" };
+              // A reader (or writer) that executed in this build was checked by pie against the records as they
+              // were at that moment; when the path it found ran through the not yet replaced record of a task that was
+              // re-executed later in the same build (and then no longer required the writer), the build returns with
+              // the hidden dependency undetected (recorded finding as well; same root cause). The path must exist when
+              // the replaced records of the other tasks executed in this session are taken into account.
+              let replaced: Vec<Option<ExecRec>> = (0..ntasks).map(|m| if m != x && executed.contains(&m) { self.prev[m].clone() } else { None }).collect();
+              let via_replaced = (executed.contains(&x) || executed.contains(w)) && ledger_path(&self.ledger, &replaced, x, *w);
+              let sig = if !executed.contains(&x) && !executed.contains(w) && intermediate_reexecuted { "path-dropped-by-reexecuted-intermediate" } else if via_replaced { "path-through-record-replaced-later-in-build" } else { "" };
               violations.push(Violation::new(&["C05"], "reader-without-path-after-build", step, format!("after the build returned, task {x}, which was executed or validated in it, is a recorded reader of {:?} without (transitively) requiring its writer {w}", r)).with_sig(sig));
               break;
             }
@@ -1215,6 +1279,8 @@ impl<'a> Runner<'a> {
     }
     let _ = errors_seen;
     if cutoff { self.stats.hit("probe_early_cutoff"); }
+    if builds_started >= 2 { self.stats.hit("probe_several_bottom_up_builds_in_one_session"); }
+    if let SessionKind::BottomUp { pre_require, .. } = kind { if !pre_require.is_empty() && slice.iter().any(|e| matches!(e, Ev::ExecStart { bottom_up: true, .. })) && slice.iter().any(|e| matches!(e, Ev::ExecStart { bottom_up: false, .. })) { self.stats.hit("probe_session_executed_top_down_and_bottom_up"); } }
     for (i, n) in fam_access.iter().enumerate() { self.stats.add(["access_sim_RA", "access_sim_RB", "access_map_MK2", "access_map_MK3", "access_file"][i], *n); }
     if coarse_ignored { self.stats.hit("probe_coarse_ignored_change"); }
     for (i, name) in ["probe_bu_queue_ge3", "probe_bu_nested_execution_of_scheduled_task", "probe_bu_new_task_executed_nested", "probe_dependency_set_changed", "probe_generated_resource_repaired", "probe_reserved_edge_after_abort", "observed_bu_double_execution_of_aborted_task"].iter().enumerate() { if probes[i] { self.stats.hit(name); } }
